@@ -359,6 +359,11 @@ func (rn *rnode) rinsert(topic []byte, msg *message.PublishMessage) error {
 			return err
 		}
 
+		// The DUP flag describes one transmission of the PUBLISH packet the
+		// message arrived in, not the message: it is not stored. (A retained
+		// copy sent at QoS 0 with DUP set would be a malformed packet.)
+		rn.buf[0] &^= 0x08
+
 		// Reuse the message if possible
 		if rn.msg == nil {
 			rn.msg = message.NewPublishMessage()
